@@ -299,6 +299,7 @@ func (hs *serverHandshake) parseClientHandshake(filter *replayfilter.ReplayFilte
 			// that sampled the clock earlier, but reaches the filter later,
 			// looks like the system time jumping backwards, which causes
 			// the filter to be reset (and replays to be accepted).
+			verifGate("obfs4.replay.prelock", macRx)
 			replayFilterLock.Lock()
 			seen := filter.TestAndSet(time.Now(), macRx)
 			replayFilterLock.Unlock()
